@@ -101,7 +101,9 @@ def source(tree, default_attr=None, positions=("field", "vfield", "payload", "al
         # items that sort (and are generated) BEFORE the hosts of the same kind: AheadA < HostA (aliases), Ahead < Host (structs), AheadE < HostE
         g2 = "<T>" if mentions_param(sibling) else ""
         st = rust_text(sibling)
-        return (source(tree, default_attr, positions) + f"#[typeshare]\npub type AheadA{g2} = {st};\n#[typeshare]\npub struct Ahead{g2} {{\n    pub f: {st},\n    pub g: Vec<{st}>,\n}}\n"
+        # the tree itself with other array lengths only (same leaves): MC_C05!Sib2
+        s2 = rust_text(with_lengths(tree))
+        return (source(tree, default_attr, positions) + f"#[typeshare]\npub type AheadA{g2} = {st};\n#[typeshare]\npub struct Ahead{g2} {{\n    pub f: {st},\n    pub g: Vec<{st}>,\n    pub h: {s2},\n}}\n"
                 f'#[typeshare]\n#[serde(tag = "t", content = "c")]\npub enum AheadE{g2} {{\n    Pay({st}),\n    Sv {{\n        f: {st},\n    }},\n}}\n')
     ty = rust_text(tree)
     g = "<T>" if mentions_param(tree) else ""
